@@ -149,6 +149,23 @@ func credDefects() []credDefect {
 		// does not cover both lines
 		{"signed-header-forged-line-before", func(r *gw.Req, ph string) gw.Signed { return dupSignedHeader(r, ph, true) }},
 		{"signed-header-forged-line-after", func(r *gw.Req, ph string) gw.Signed { return dupSignedHeader(r, ph, false) }},
+		// a query parameter added after signing, spelled so that a lax query parser drops it (';' inside the value)
+		{"query-parameter-appended-with-semicolon-value(tagging)", func(r *gw.Req, ph string) gw.Signed {
+			sg := sign(r, gw.Root, ph, gw.SignOpts{})
+			if r.Query != "" {
+				r.Query += "&"
+			}
+			r.Query += "tagging=;"
+			return sg
+		}},
+		{"query-parameter-appended-with-semicolon-value(acl)", func(r *gw.Req, ph string) gw.Signed {
+			sg := sign(r, gw.Root, ph, gw.SignOpts{})
+			if r.Query != "" {
+				r.Query += "&"
+			}
+			r.Query += "acl=;x"
+			return sg
+		}},
 		{"date-16min-future", func(r *gw.Req, ph string) gw.Signed {
 			sg := sign(r, gw.Root, ph, gw.SignOpts{Time: time.Now().Add(16 * time.Minute)})
 			return sg
